@@ -22,6 +22,8 @@ type c02Case struct {
 	Cfg        sut.Config `json:"cfg"`
 	Spec       PipeSpec   `json:"spec"`
 	SlowReader bool       `json:"slow_reader,omitempty"`
+	HoldHead   bool       `json:"hold_head,omitempty"`     // the first reply is held until the later ones are there: all replies are flushed in one vectored write
+	NodePause  int        `json:"node_pause_ms,omitempty"` // the backends do not read for this long: requests are written to them in partial writes
 }
 
 var c02Configs = []sut.Config{
@@ -40,11 +42,94 @@ var c02Configs = []sut.Config{
 	{BufCap: 8, SndBuf: 4096},
 }
 
+// c02GenBackpressure draws the cases built to make the proxy's vectored writes partial: several replies flushed
+// together to a client that is not reading, or several requests written together to a node that is not reading.
+func c02GenBackpressure(t *rapid.T, cfgs []sut.Config) (c02Case, bool) {
+	var withSnd []sut.Config
+	for _, x := range cfgs {
+		if x.SndBuf > 0 && x.BufCap >= 16 {
+			withSnd = append(withSnd, x)
+		}
+	}
+	if len(withSnd) == 0 {
+		for _, x := range cfgs {
+			if x.SndBuf > 0 {
+				withSnd = append(withSnd, x)
+			}
+		}
+	}
+	if len(withSnd) == 0 {
+		return c02Case{}, false
+	}
+	var c c02Case
+	c.Cfg = rapid.SampledFrom(withSnd).Draw(t, "bpcfg")
+	big := 12000
+	if c.Cfg.BufCap < 16 {
+		big = 2500 // a tiny read buffer makes big messages quadratic
+	}
+	toClient := rapid.Bool().Draw(t, "toclient")
+	n := rapid.IntRange(2, 8).Draw(t, "bpn")
+	cs := ClientSpec{}
+	for i := 0; i < n; i++ {
+		key := Bin(fmt.Sprintf("{bp}k%d-%s", i, rapid.StringMatching(`[a-z]{0,6}`).Draw(t, "ksfx")))
+		if toClient && i > 0 {
+			// the later requests live on other nodes than the held head, so their replies are complete
+			// and waiting in the client's queue when the head is finally answered
+			key = keyFor([]int{6000, 12000}[i%2], 0, i, 0)
+		}
+		if toClient {
+			// small requests, big replies (the first one may be small so that the cut falls behind it)
+			sz := rapid.IntRange(big/4, big).Draw(t, "repsize")
+			if i == 0 && rapid.Bool().Draw(t, "smallhead") {
+				sz = rapid.IntRange(1, 200).Draw(t, "headsize")
+			}
+			seed := rapid.SliceOfN(rapid.Byte(), 1, 8).Draw(t, "repseed")
+			body := bytes.Repeat(seed, sz/len(seed)+1)[:sz]
+			cs.Reqs = append(cs.Reqs, Req{Name: Bin("get"), Args: []Bin{key}})
+			c.Spec.Plans = append(c.Spec.Plans, Plan{Key: key, Reply: refmodel.Bulk(body), Hold: i == 0})
+		} else {
+			// big requests to one node which is not reading for a while
+			sz := rapid.IntRange(big/4, big).Draw(t, "reqsize")
+			if i == 0 && rapid.Bool().Draw(t, "smallfirst") {
+				sz = rapid.IntRange(1, 200).Draw(t, "firstsize")
+			}
+			vseed := rapid.SliceOfN(rapid.Byte(), 1, 8).Draw(t, "valseed")
+			val := bytes.Repeat(vseed, sz/len(vseed)+1)[:sz]
+			cs.Reqs = append(cs.Reqs, Req{Name: Bin("set"), Args: []Bin{key, val}})
+		}
+	}
+	c.Spec.Clients = []ClientSpec{cs}
+	if toClient {
+		c.HoldHead, c.SlowReader = true, true
+		c.Spec.Schedule = []int{0}
+		c.Spec.HoldMs = 15
+	} else {
+		c.NodePause = rapid.SampledFrom([]int{20, 50}).Draw(t, "bppause")
+		if rapid.Bool().Draw(t, "separate") {
+			// each request in a write of its own: several write signals hit the same backed-up connection
+			for i := range cs.Reqs {
+				c.Spec.Clients[0].Cuts = append(c.Spec.Clients[0].Cuts, len(cs.Reqs[i].Encode()))
+			}
+			c.Spec.Clients[0].PauseUs = rapid.SampledFrom([]int{100, 500, 2000, 5000, 9000}).Draw(t, "seppause")
+		}
+	}
+	return c, true
+}
+
 func c02Gen(t *rapid.T) c02Case {
 	var c c02Case
-	c.Cfg = rapid.SampledFrom(shardPick(c02Configs, 3)).Draw(t, "cfg")
+	cfgs := shardPick(c02Configs, 3)
+	if rapid.IntRange(0, 9).Draw(t, "mode") < 3 {
+		if bp, ok := c02GenBackpressure(t, cfgs); ok {
+			return bp
+		}
+	}
+	c.Cfg = rapid.SampledFrom(cfgs).Draw(t, "cfg")
 	small := c.Cfg.BufCap > 0
 	maxLong := 3000
+	if c.Cfg.BufCap >= 16 {
+		maxLong = 12000
+	}
 	if !small {
 		maxLong = rapid.SampledFrom([]int{2000, 70000, 300000}).Draw(t, "maxlong")
 	} else if c.Cfg.BufCap >= 64 {
@@ -103,6 +188,20 @@ func c02Gen(t *rapid.T) c02Case {
 	}
 	c.Spec.Clients = []ClientSpec{cs}
 	c.SlowReader = rapid.IntRange(0, 5).Draw(t, "slow") == 0
+	if n >= 2 && rapid.IntRange(0, 2).Draw(t, "holdhead") == 0 {
+		c.HoldHead = true
+		k0 := keyOfReq(&c.Spec.Clients[0].Reqs[0])
+		for i := range c.Spec.Plans {
+			if bytes.Equal(c.Spec.Plans[i].Key, k0) {
+				c.Spec.Plans[i].Hold = true
+			}
+		}
+		c.Spec.Schedule = []int{0}
+		c.Spec.HoldMs = 15
+	}
+	if c.Cfg.SndBuf > 0 && rapid.IntRange(0, 2).Draw(t, "nodepause") == 0 {
+		c.NodePause = rapid.SampledFrom([]int{10, 30, 60}).Draw(t, "pausems")
+	}
 	return c
 }
 
@@ -151,6 +250,17 @@ func c02Classify(c *c02Case) (bool, []string) {
 	if c.Cfg.BufCap > 0 {
 		cls = append(cls, fmt.Sprintf("bufcap-%d", c.Cfg.BufCap))
 	}
+	if c.HoldHead {
+		nt = true
+		cls = append(cls, "replies-flushed-together")
+		if c.SlowReader {
+			cls = append(cls, "replies-flushed-together-to-slow-reader")
+		}
+	}
+	if c.NodePause > 0 {
+		nt = true
+		cls = append(cls, "backend-not-reading")
+	}
 	if c.Cfg.Password != "" {
 		cls = append(cls, "password")
 	}
@@ -171,6 +281,13 @@ func dedup(in []string) []string {
 
 func c02Exec(c *c02Case) []Discrepancy {
 	f := getFixture("C02", c.Cfg, 3, 1)
+	if c.Cfg.SndBuf > 0 && !f.smallRecv {
+		// small socket buffers on the backend side too, so that the proxy's writes to a busy node are partial
+		f.Cluster.SetRecvBuf(4096)
+		f.Cluster.CloseDataConns(-1, false)
+		time.Sleep(30 * time.Millisecond)
+		f.smallRecv = true
+	}
 	ds := c02Run(f, c)
 	if len(ds) > 0 {
 		dropFixture(f)
@@ -184,6 +301,9 @@ func c02Run(f *Fixture, c *c02Case) []Discrepancy {
 	pi := indexPlans(&c.Spec)
 	exp := expectedFor(&c.Spec.Clients[0], pi, rc)
 	var res *PipeResult
+	if c.NodePause > 0 {
+		f.Cluster.PauseReads(time.Duration(c.NodePause) * time.Millisecond)
+	}
 	if c.SlowReader {
 		res = runSlowReader(f, &c.Spec, len(exp))
 	} else {
